@@ -664,7 +664,7 @@ def dc_exec(ctx, case):
 
 def run(ctx):
     n = ctx.n(200, 2000)
-    opts = H.Opts(ftasks=False, knobs=False, maint=False, max_ops=20, eq=True)
+    opts = H.Opts(ftasks=False, knobs=False, maint=False, max_ops=20, eq=True, fresh=True, divmod_item=True)
 
     def body(case):
         return exec_case(ctx, case)
